@@ -24,11 +24,20 @@ func VerifHarness_QueryOrder(which uint64) {
 	err := tr.SaveStateKey(acct, nil, &parentSlot, nil, tid, common.Hash{}, []byte("m"))
 	verifAssert(err == nil, "parent registration succeeds")
 	keys := make([][]byte, n)
+	distinct := 0
 	for i := 0; i < n; i++ {
 		slot := verifU256("slot")
 		keys[i] = verifBytes("indexkey", 1, 1)
+		// index keys and slots may repeat: a later registration of a known index or of a known
+		// (slot, offset, type) refers to the record kept first
+		fresh := true
 		for j := 0; j < i; j++ {
-			verifAssume(keys[i][0] != keys[j][0])
+			if keys[i][0] == keys[j][0] {
+				fresh = false
+			}
+		}
+		if fresh {
+			distinct++
 		}
 		err := tr.SaveStateKey(acct, &parentSlot, &slot, nil, tid, tid, keys[i])
 		verifAssert(err == nil, "child registration succeeds")
@@ -39,7 +48,7 @@ func VerifHarness_QueryOrder(which uint64) {
 	switch which {
 	case 0:
 		c1, c2 := k.Children(), k.Children()
-		verifAssert(len(c1) == len(c2) && len(c1) == n, "C16: Children returns the same number of elements every time")
+		verifAssert(len(c1) == len(c2) && len(c1) == distinct, "C16: Children returns the same number of elements every time")
 		for i := range c1 {
 			verifAssert(c1[i] == c2[i], "C16: Children returns its elements in the same order every time")
 		}
@@ -47,7 +56,7 @@ func VerifHarness_QueryOrder(which uint64) {
 	case 2:
 		x1 := tr.StateChanges().IndicesOfChanges(acct, "m")
 		x2 := tr.StateChanges().IndicesOfChanges(acct, "m")
-		verifAssert(len(x1) == len(x2) && len(x1) == n, "C16: IndicesOfChanges returns the same number of elements every time")
+		verifAssert(len(x1) == len(x2) && len(x1) == distinct, "C16: IndicesOfChanges returns the same number of elements every time")
 		for i := range x1 {
 			verifAssert(verifBytesEq(x1[i], x2[i]), "C16: IndicesOfChanges returns its elements in the same order every time")
 		}
@@ -59,7 +68,7 @@ func VerifHarness_QueryOrder(which uint64) {
 		verifAssert(verifBytesEq(i1[i], i2[i]), "C16: ChildrenIndices returns its elements in the same order every time")
 	}
 	// C11: the reported child indices are exactly those registered
-	verifAssert(len(i1) == n, "C11: child indices reported are exactly those registered (count)")
+	verifAssert(len(i1) == distinct, "C11: child indices reported are exactly those registered (count)")
 	for i := 0; i < n; i++ {
 		found := false
 		for j := range i1 {
